@@ -363,6 +363,7 @@ class C01(PropertyCheck):
                      "not modelled: what loaders compute"]
     level_text = ("Lean theorems (KDVerif.Props.C01) about the planner and __getitem__ model for all modes/fused declarations: every mode position is written, "
                   "the last writer of a position is the loader of that position's item (joint loader component in mode order for fused groups, one call), "
+                  "end-to-end getitem_positions for every constructor-accepted wrapper, "
                   "packaging/ctx/negative/slice/list laws. Model tied to the real ModeWrapper over synthetic stacks of real KDDataset/KDWrapper classes by "
                   "differential correspondence (exhaustive modes up to length 3 x fused declarations + random), independent positional oracle.")
     level_note = "loaders are symbolic; __getattr__-based resolution is sampled through the harness's hasattr probes"
